@@ -97,6 +97,7 @@ fn drift(a: &str, b: &str, level: LuaLanguageLevel) -> Value {
     let mut stat_kind = String::from("none");
     let mut token_kind = String::from("none");
     let mut owner_kind = String::from("none");
+    let mut path: Vec<String> = Vec::new(); // node kinds from the innermost node up to the enclosing statement
     if let Some(tok) = root.token_at_offset(probe).right_biased() {
         token_kind = format!("{:?}", tok.kind().to_token());
         let mut first = true;
@@ -106,6 +107,7 @@ fn drift(a: &str, b: &str, level: LuaLanguageLevel) -> Value {
                 node_kind = k.clone();
                 first = false;
             }
+            path.push(k.clone());
             if k.ends_with("Stat") || k == "Comment" || k.starts_with("DocTag") {
                 stat_kind = k;
                 // what the comment / statement hangs on (Block, TableObjectExpr, CallArgList, ParamList ..)
@@ -121,7 +123,7 @@ fn drift(a: &str, b: &str, level: LuaLanguageLevel) -> Value {
         let end = s[start..].find('\n').map(|i| start + i).unwrap_or(s.len());
         s[start..end].to_string()
     };
-    json!({"off": off, "ws_only": ws_only, "token": token_kind, "node": node_kind, "stat": stat_kind, "owner": owner_kind,
+    json!({"off": off, "ws_only": ws_only, "token": token_kind, "node": node_kind, "stat": stat_kind, "owner": owner_kind, "path": path,
            "line1": line(a), "line2": line(b)})
 }
 
